@@ -183,8 +183,7 @@ def replay(path):
     h = Harness()
     cfg = d['witness']['cfg']
     hist = [tuple(e) for e in d['witness']['history']]
-    a = h.state_checks(cfg, hist, None, None)
-    b = h.state_checks(cfg, hist, None, None)
+    a, b = report.twice(h.state_checks, cfg, hist, None, None)
     if repr(a) != repr(b):
         print('HARNESS-ERROR: replay is not deterministic')
         return 2
